@@ -92,7 +92,7 @@ def rand_case(rng, D, hi, smax=3, dom=None):
         mode = rng.choice(["full", "valid"])
         mc, ci, co = rng.choice(CH)
         c = dict(m=m, n=n, s=None if rng.random() < 0.15 else [rng.randint(1, smax) for _ in range(D)], mode=mode,
-                 mc=mc, ci=ci, co=co, b=rng.choice([[], [], [2], [2], [1, 2]]) if D < 3 else rng.choice([[], [2]]),
+                 mc=mc, ci=ci, co=co, b=rng.choice([[], [], [2], [2], [1, 2], [2, 3], [3, 2], [2, 1, 2]]) if D < 3 else rng.choice([[], [2], [2, 2]]),
                  cplx=rng.random() < 0.8)
         # mixed dtypes (real data with complex filter, complex output-side array with real filter, …):
         # "real or complex values" of the statement; a mixed call may be rejected with a TypeError (numpy
@@ -121,6 +121,64 @@ def gen_cases(rng, n2, n3):
     return cases
 
 
+BATCHES2 = [[2, 3], [3, 2], [2, 1, 2], [2, 2], [1, 2, 3]]   # two or more batch axes longer than 1
+
+
+def directed_widened(rng):
+    """every memory layout (on each single array and on all three) with two non-trivial batch axes, every magnitude
+    (on each single array and on all three, plus the mixed 2^30-apart variant): one random admitted shape each"""
+    out = []
+
+    def base(multi_batch):
+        c = rand_case(rng, rng.choice([1, 1, 2]), 4, dom="normal")
+        c.pop("mix", None)
+        c["b"] = rng.choice(BATCHES2) if multi_batch else rng.choice([[], [2], [2, 3]])
+        return c
+    for lay in LAYS[1:]:
+        for which in (None, 0, 1, 2):
+            c = base(True)
+            c["lay"] = [lay] * 3 if which is None else [lay if i == which else "C" for i in range(3)]
+            out.append(c)
+    for e in SCALES + [-100]:
+        for which in (None, 0, 1, 2):
+            c = base(False)
+            c["sc"] = [e] * 3 if which is None else [e if i == which else 0 for i in range(3)]
+            out.append(c)
+    for e in (-30, -40, -60):
+        for which in range(3):
+            for el in (False, True):
+                c = base(False)
+                if c["mc"] is False and not c["b"]:
+                    c.update(mc=True, ci=2, co=2)
+                c["sc"] = [e if i == which else 0 for i in range(3)]
+                c.update(blk=NAMES[which], blkel=el)
+                out.append(c)
+    for spv in ([1, 1, 1], [1, 0, 1], [0, 1, 0]):
+        c = base(False)
+        c["sp"] = spv
+        c["sc"] = [rng.choice([0] + SCALES) for _ in range(3)]
+        out.append(c)
+    for _ in range(4):
+        c = decorate(base(True), rng, p_reuse=0)
+        c["reuse"] = True
+        out.append(c)
+    return out
+
+
+def widened_cases(rng, n1, n2, n3):
+    """random cases carrying layouts / magnitudes / precisions / call histories; the 1-D ones take the shape grid of the
+    exhaustive stream with batch shapes of two or more non-trivial axes"""
+    ex1 = list(exhaustive_1d())
+    out = directed_widened(rng)
+    for c in rng.sample(ex1, n1):
+        out.append(decorate(dict(c, b=rng.choice(BATCHES2 + [[2], []]), cplx=rng.random() < 0.8), rng, p_lay=0.75, p_sc=0.6))
+    for _ in range(n2):
+        out.append(decorate(rand_case(rng, 2, 4), rng, p_lay=0.75, p_sc=0.6))
+    for _ in range(n3):
+        out.append(decorate(rand_case(rng, 3, 3, smax=2), rng, p_lay=0.75, p_sc=0.6))
+    return out
+
+
 def rand_arr(rng, shape, cplx):
     size = int(np.prod(shape)) if len(shape) else 1
     re = np.array([rng.randint(-4, 4) for _ in range(size)], dtype=np.float64)
@@ -131,9 +189,157 @@ def rand_arr(rng, shape, cplx):
 
 
 def make_inputs(c, rng):
+    """integer 'mantissa' arrays (what the model and the reference see); the arrays handed to sigpy are
+    mantissa * 2^c['sc'][i] in the precision c['sp'][i] and the memory layout c['lay'][i] (see `prep`)"""
     dsh, fsh = shapes(c)
     cd, cf, cy = c.get("mix") or [c["cplx"]] * 3
-    return dict(d=rand_arr(rng, dsh, cd), f=rand_arr(rng, fsh, cf), y=rand_arr(rng, ysh_of(c), cy))
+    x = dict(d=rand_arr(rng, dsh, cd), f=rand_arr(rng, fsh, cf), y=rand_arr(rng, ysh_of(c), cy))
+    if c.get("blk"):
+        # magnitudes that differ by 2^30 inside one array: whole (batch / channel) blocks, or single entries, of the
+        # mantissa are multiplied by 2^30 (still exact integers < 2^53 after the bilinear map: at most one array per call)
+        a = x[c["blk"]]
+        D = len(c["m"])
+        lead = a.shape[:a.ndim - D]
+        if c.get("blkel") or not lead or int(np.prod(lead)) < 2:
+            mask = np.array([rng.random() < 0.5 for _ in range(a.size)]).reshape(a.shape)
+        else:
+            bits = [rng.random() < 0.5 for _ in range(int(np.prod(lead)))]
+            if all(bits) or not any(bits):
+                bits[rng.randrange(len(bits))] ^= True
+            mask = np.array(bits).reshape(lead + (1,) * D) & np.ones(a.shape, dtype=bool)
+        x[c["blk"]] = np.where(mask, a * float(2 ** 30), a)
+    return x
+
+
+# ---- widening: magnitudes, precisions, memory layouts, call histories ------------------------------------
+# The property quantifies over "all data and filter values", "real or complex dtypes", "batch shapes": the value of
+# convolve / the adjoints is a function of the VALUES of the argument arrays only. A case may therefore carry
+#   sc   = [e_d, e_f, e_y]  the array handed to sigpy is mantissa * 2^e (exact in binary floating point; by
+#                           bilinearity the result is the integer result * 2^(e_a + e_b), again exact)
+#   sp   = [0/1] * 3        the array is held in single precision (float32 / complex64); small integers * 2^e are exact
+#   lay  = [l_d, l_f, l_y]  memory layout of the array object (same shape, same values), see LAYS
+#   reuse                   the same callable (function with the same argument objects / the same Linop object) is
+#                           first applied to another input of the same shape, then twice to the input; the last
+#                           result counts
+SCALES = [-40, -50, -60, 30]
+LAYS = ["C", "F", "T", "S", "S0", "R", "P"]
+NAMES = ["d", "f", "y"]
+OPERANDS = {"conv": (0, 1), "dadj": (2, 1), "fadj": (2, 0)}   # which two arrays enter the bilinear map
+
+
+def relayout(a, lay):
+    """an array with the shape and values of `a` whose memory layout is `lay`:
+    C contiguous; F Fortran-contiguous copy; T transposed view of a C-contiguous array; S / S0 strided view (every
+    second element of the last / first axis of a larger buffer filled with other values); R view with negative strides
+    on every axis; P axes-permuted view (neither C- nor F-contiguous when ndim >= 3)"""
+    a = np.asarray(a)
+    if lay == "C" or a.ndim == 0:
+        return np.ascontiguousarray(a).copy()
+    if lay == "F":
+        return np.asfortranarray(a).copy(order="F")
+    if lay == "T":
+        return np.ascontiguousarray(a.T).T
+    if lay in ("S", "S0"):
+        ax = a.ndim - 1 if lay == "S" else 0
+        sh = list(a.shape)
+        sh[ax] = 2 * sh[ax] + 1
+        buf = np.full(sh, 7, dtype=a.dtype)
+        idx = [slice(None)] * a.ndim
+        idx[ax] = slice(1, None, 2)
+        v = buf[tuple(idx)]
+        v[...] = a
+        return v
+    if lay == "R":
+        rev = (slice(None, None, -1),) * a.ndim
+        return np.ascontiguousarray(a[rev])[rev]
+    if lay == "P":
+        perm = list(range(1, a.ndim)) + [0]
+        inv = [perm.index(i) for i in range(a.ndim)]
+        return np.ascontiguousarray(a.transpose(perm)).transpose(inv)
+    raise ValueError(lay)
+
+
+def scale_arr(a, e):
+    if not e:
+        return a
+    if np.iscomplexobj(a):
+        out = np.empty(a.shape, dtype=np.complex128)
+        out.real = np.ldexp(a.real, e)
+        out.imag = np.ldexp(a.imag, e)
+        return out
+    return np.ldexp(a, e)
+
+
+def unscale(a, e):
+    """a * 2^-e in double precision (exact: power-of-two scaling)"""
+    a = np.asarray(a)
+    if np.iscomplexobj(a):
+        return scale_arr(a.astype(np.complex128), -e)
+    return scale_arr(a.astype(np.float64), -e)
+
+
+def prep(c, x):
+    """the three array objects handed to sigpy"""
+    sc, sp, lay = c.get("sc") or [0, 0, 0], c.get("sp") or [0, 0, 0], c.get("lay") or ["C"] * 3
+    out = {}
+    for i, nm in enumerate(NAMES):
+        a = scale_arr(x[nm].copy(), sc[i])
+        if sp[i]:
+            a = a.astype(np.complex64 if np.iscomplexobj(a) else np.float32)
+        out[nm] = relayout(a, lay[i])
+        assert out[nm].shape == x[nm].shape and np.array_equal(out[nm], a)
+    return out
+
+
+def result_exp(c, op):
+    sc = c.get("sc") or [0, 0, 0]
+    i, j = OPERANDS[op]
+    return sc[i] + sc[j]
+
+
+def extras(c):
+    return tuple((k, json.dumps(c[k])) for k in ("sc", "sp", "lay", "reuse", "blk") if c.get(k))
+
+
+def decorate(c, rng, p_lay=0.6, p_sc=0.5, p_sp=0.15, p_reuse=0.15):
+    """add memory layouts / magnitudes / precisions / a call history to a case (shapes unchanged)"""
+    c = dict(c)
+    if rng.random() < p_lay:
+        r = rng.random()
+        if r < 0.25:
+            c["lay"] = [rng.choice(["F", "T"])] * 3
+        elif r < 0.4:
+            c["lay"] = [rng.choice(LAYS[1:])] * 3
+        else:
+            c["lay"] = [rng.choice(LAYS) for _ in range(3)]
+        if all(v == "C" for v in c["lay"]):
+            c["lay"][rng.randrange(3)] = rng.choice(["F", "T"])
+    single = rng.random() < p_sp
+    if single:
+        c["sp"] = rng.choice([[1, 1, 1], [1, 0, 1], [0, 1, 0], [1, 1, 0], [0, 0, 1]])
+    if rng.random() < p_sc:
+        r = rng.random()
+        if r < 0.35:     # one array tiny / huge
+            sc = [0, 0, 0]
+            sc[rng.randrange(3)] = rng.choice(SCALES)
+        elif r < 0.5:
+            sc = [rng.choice(SCALES)] * 3
+        else:
+            sc = [rng.choice([0] + SCALES) for _ in range(3)]
+        if not single and rng.random() < 0.1:
+            sc[rng.randrange(3)] = -100
+        if any(sc):
+            c["sc"] = sc
+        if not single and rng.random() < 0.4:
+            # two magnitudes 2^30 apart inside one array, the smaller one tiny (<= 4 * 2^-30 < 1e-8)
+            i = rng.randrange(3)
+            sc[i] = rng.choice([-30, -40, -60])
+            c["sc"] = sc
+            c["blk"] = NAMES[i]
+            c["blkel"] = rng.random() < 0.25
+    if rng.random() < p_reuse:
+        c["reuse"] = True
+    return c
 
 
 # ---- protocol -------------------------------------------------------------------------------------
@@ -180,6 +386,8 @@ def canon(arr):
     integer, which is accepted only within 1e-6 (semantic differences are ≥ 1)."""
     arr = np.asarray(arr)
     z = arr.astype(np.complex128).ravel()
+    if not (np.isfinite(z.real).all() and np.isfinite(z.imag).all()):
+        return "non-finite output"
     re, im = np.rint(z.real), np.rint(z.imag)
     if z.size and (np.abs(z.real - re).max() > 1e-6 or np.abs(z.imag - im).max() > 1e-6):
         return "non-integer output"
@@ -208,40 +416,56 @@ def kw(c):
     return dict(mode=c["mode"], strides=None if c["s"] is None else tuple(c["s"]), multi_channel=c["mc"])
 
 
-def run_impl(c, x, op, via):
-    """op in conv / dadj / fadj; via in fn / linop / linop-direct (adjoint classes built directly) /
-    linop-filter (ConvolveFilter for conv) / adjH-data, adjH-filter (.H of the adjoint classes)"""
+def entry(c, a, op, via):
+    """(callable, name of the input array): the entry point `via` of `op` with its fixed arguments bound (a Linop is built once)"""
     import sigpy as sp
     from sigpy import linop
     dsh, fsh = shapes(c)
-    d, f, y = x["d"].copy(), x["f"].copy(), x["y"].copy()
+    d, f, y = a["d"], a["f"], a["y"]
     k = kw(c)
     if op == "conv":
         if via == "fn":
-            return sp.convolve(d, f, **k)
+            return (lambda v: sp.convolve(v, f, **k)), "d"
         if via == "linop":
-            return linop.ConvolveData(dsh, f, **k)(d)
+            return linop.ConvolveData(dsh, f, **k), "d"
         if via == "linop-filter":
-            return linop.ConvolveFilter(fsh, d, **k)(f)
+            return linop.ConvolveFilter(fsh, d, **k), "f"
         if via == "adjH-data":      # the adjoint class's own `_adjoint_linop`
-            return linop.ConvolveDataAdjoint(dsh, f, **k).H(d)
+            return linop.ConvolveDataAdjoint(dsh, f, **k).H, "d"
         if via == "adjH-filter":
-            return linop.ConvolveFilterAdjoint(fsh, d, **k).H(f)
+            return linop.ConvolveFilterAdjoint(fsh, d, **k).H, "f"
     if op == "dadj":
         if via == "fn":
-            return sp.convolve_data_adjoint(y, f, dsh, **k)
+            return (lambda v: sp.convolve_data_adjoint(v, f, dsh, **k)), "y"
         if via == "linop":
-            return linop.ConvolveData(dsh, f, **k).H(y)
+            return linop.ConvolveData(dsh, f, **k).H, "y"
         if via == "linop-direct":
-            return linop.ConvolveDataAdjoint(dsh, f, **k)(y)
+            return linop.ConvolveDataAdjoint(dsh, f, **k), "y"
     if op == "fadj":
         if via == "fn":
-            return sp.convolve_filter_adjoint(y, d, fsh, **k)
+            return (lambda v: sp.convolve_filter_adjoint(v, d, fsh, **k)), "y"
         if via == "linop":
-            return linop.ConvolveFilter(fsh, d, **k).H(y)
+            return linop.ConvolveFilter(fsh, d, **k).H, "y"
         if via == "linop-direct":
-            return linop.ConvolveFilterAdjoint(fsh, d, **k)(y)
+            return linop.ConvolveFilterAdjoint(fsh, d, **k), "y"
     raise ValueError((op, via))
+
+
+def run_impl(c, x, op, via):
+    """op in conv / dadj / fadj; via in fn / linop / linop-direct (adjoint classes built directly) /
+    linop-filter (ConvolveFilter for conv) / adjH-data, adjH-filter (.H of the adjoint classes).
+    Returns the result divided by the power of two the inputs were scaled with (double precision, exact)."""
+    a = prep(c, x)
+    fn, nm = entry(c, a, op, via)
+    inp = a[nm]
+    if c.get("reuse"):
+        # same callable, same argument objects: another input of the same shape first, then the input twice
+        other = (np.roll(np.asarray(inp).ravel(), 1) * 3).reshape(inp.shape)
+        fn(relayout(other, (c.get("lay") or ["C"] * 3)[NAMES.index(nm)]))
+        fn(inp)
+    got = fn(inp)
+    e = result_exp(c, op)
+    return unscale(got, e) if e or any(c.get("sp") or []) else got
 
 
 VIAS = {"conv": ["fn", "linop", "linop-filter", "adjH-data", "adjH-filter"], "dadj": ["fn", "linop", "linop-direct"],
@@ -349,6 +573,18 @@ def deser(cc):
     return c, dict(d=fix(arr(cc["d"], dsh), cd), f=fix(arr(cc["f"], fsh), cf), y=fix(arr(cc["y"], ysh_of(c)), cy))
 
 
+def count_extras(ctx, c, op):
+    i, j = OPERANDS[op]
+    if c.get("lay"):
+        ctx.count("layout:%s:%s+%s:%s" % (op, c["lay"][i], c["lay"][j], "B>=2axes" if sum(1 for v in c["b"] if v > 1) >= 2 else "B<2axes"))
+    if c.get("sc"):
+        ctx.count("magnitude:%s:2^%d*2^%d%s" % (op, c["sc"][i], c["sc"][j], ":mixed-2^30" if c.get("blk") in (NAMES[i], NAMES[j]) else ""))
+    if c.get("sp"):
+        ctx.count("single-precision:%s:%d%d" % (op, c["sp"][i], c["sp"][j]))
+    if c.get("reuse"):
+        ctx.count("reuse:%s" % op)
+
+
 def _run(ctx, cases, stream, rng, vias=None):
     lines, meta = [], []
     for c in cases:
@@ -400,9 +636,12 @@ def _run(ctx, cases, stream, rng, vias=None):
                 # Linop contract (hand-written): the constructor calls _get_convolve_params and rejects a
                 # non-positive entry in the advertised output shape (ValueError); otherwise it forwards to the function
                 want = model if linop_view(fwd[id(c)]) == fwd[id(c)] and isinstance(fwd[id(c)], tuple) else "err ValueError"
-            ctx.case((ln, via), nontrivial=True,
-                     sample=dict(line=ln[:160], via=via, reply=r[:100]) if ctx.evaluations % 397 == 0 else None)
+            ex = extras(c)
+            ctx.case((ln, via, ex), nontrivial=True,
+                     sample=dict(line=ln[:160], via=via, reply=r[:100], **dict(ex)) if ctx.evaluations % 397 == 0 else None)
             ctx.count("%s:%s:D%d:%s:%s" % (op, c["mode"], len(c["m"]), dom, "mc" if c["mc"] else "sc"))
+            if ex and layer == "nd":
+                count_extras(ctx, c, op)
             if impl != want:
                 bad += 1
                 ctx.disagree(stream, dict(ser(c, x), op=op, via=via, layer=layer), impl, want)
@@ -417,7 +656,12 @@ def correspond(ctx):
                 "Lean model (N-D layer; for D=1 also the 1-D single-channel and 1-D batch/multi-channel layers the theorems are "
                 "about); distinct by "
                 "protocol line + entry point; D=1: lengths 1-5 x strides None,1-3 x modes x channel configs x batch "
-                "exhaustively; D=2: (m,n,mode) exhaustive in the thorough tier, sampled in quick; D=3 sampled")
+                "exhaustively; D=2: (m,n,mode) exhaustive in the thorough tier, sampled in quick; D=3 sampled. Stream 'widened': the "
+                "same integer arrays handed to sigpy times powers of two (2^-30..2^-100, 2^30; two magnitudes 2^30 apart "
+                "inside one array), in single precision, in Fortran-ordered / transposed / strided / negative-stride / "
+                "axes-permuted memory layouts (each array independently), with batch shapes of >= 2 non-trivial axes, and "
+                "through a callable that was applied to another input before; results are divided by the power of two "
+                "(exact) and compared exactly with the same model reply")
     ctx.assumptions += [
         "scipy.signal.convolve/correlate enter the model by their index contracts (convOff, corrShift, scipyLen), numpy "
         "slicing/broadcast/reshape by sliceLen/bcast/npReshape: hand-written, validated by the correspondence only",
@@ -427,6 +671,10 @@ def correspond(ctx):
         "shapes into b, m, n, c_i, c_o (Gen.ConvParams)",
         "numpy's casting rules (silent complex->real cast on item assignment, TypeError on in-place add of a complex term into a "
         "real array) are a hand-written contract (convDtypeRule / adjDtypeRule), validated by the mixed-dtype correspondence cases",
+        "widened stream: mantissa * 2^e is exact in binary floating point and the maps are bilinear, so the result of the real "
+        "code divided by 2^(e_a + e_b) is compared exactly with the model reply for the integer mantissas (no underflow: "
+        "|e_a + e_b| <= 200 in double, >= -120 in single precision; integers stay < 2^53); memory layout, precision and "
+        "call history do not enter the model at all (the property is about array values)",
         "cuDNN paths are out of scope",
     ]
     rng = ctx.rng
@@ -456,6 +704,9 @@ def correspond(ctx):
         cases.append(c)
     bad = _run(ctx, cases, "random", rng)
     ctx.oblige("correspondence:C08.random", "correspondence", bad == 0, "%d disagreements" % bad)
+    wid = widened_cases(rng, 250 if quick else 1500, 150 if quick else 1200, 30 if quick else 300)
+    bad = _run(ctx, wid, "widened", rng)
+    ctx.oblige("correspondence:C08.widened", "correspondence", bad == 0, "%d disagreements" % bad)
     ctx.traces = ctx.evaluations
 
 
@@ -504,42 +755,38 @@ def key_of(c, op, via):
     return "C08:%s:%s%s" % (name, c["mode"], "" if via == "fn" else ":linop")
 
 
-def check_one(ctx, c, x, op, via, origin):
-    """True = the property holds on this call"""
+def judge(c, x, op, via):
+    """None = the property holds on this call, else dict(what, case, observed, expected)"""
     dom = domain(c)
     if dom == "mixed":
-        return True  # not admitted by the mode; the statement demands nothing (the model says: rejected)
+        return None  # not admitted by the mode; the statement demands nothing (the model says: rejected)
     case = dict(ser(c, x), op=op, via=via)
     dsh, fsh = shapes(c)
     try:
         got = run_impl(c, x, op, via)
     except Exception as e:  # noqa
         if dom == "filter-longer":
-            return True  # rejected
+            return None  # rejected
         if c.get("mix") and (isinstance(e, TypeError) or isinstance(e.__cause__, TypeError)):
-            return True  # mixed dtypes rejected with a casting error (not silently wrong)
-        ctx.fail(key_of(c, op, via), "%s (%s) raised %s on a shape combination it must compute" % (op, via, type(e).__name__),
-                 case, observed=repr(e), expected="result", origin=origin)
-        return False
+            return None  # mixed dtypes rejected with a casting error (not silently wrong)
+        return dict(what="%s (%s) raised %s on a shape combination it must compute" % (op, via, type(e).__name__),
+                    case=case, observed=repr(e), expected="result")
     ref = ref_conv(c, x["d"], x["f"])
     what = "valid mode, filter longer than data on every axis: " if dom == "filter-longer" else ""
     if op == "conv":
         g = canon(got)
         w = canon(ref)
         if g != w:
-            ctx.fail(key_of(c, op, via), what + "convolve returned an array that is not the convolution of the statement "
-                     "(shape %s, expected shape %s)" % (list(np.shape(got)), w[0]), case, observed=g, expected=w, origin=origin)
-            return False
-        return True
+            return dict(what=what + "convolve returned an array that is not the convolution of the statement "
+                        "(shape %s, expected shape %s)" % (list(np.shape(got)), w[0]), case=case, observed=g, expected=w)
+        return None
     want_shape = dsh if op == "dadj" else fsh
     if list(np.shape(got)) != want_shape:
-        ctx.fail(key_of(c, op, via), what + "%s returned shape %s, requested %s" % (op, list(np.shape(got)), want_shape),
-                 case, observed=list(np.shape(got)), expected=want_shape, origin=origin)
-        return False
-    if canon(got) == "non-integer output":
-        ctx.fail(key_of(c, op, via), what + "%s returned non-integer values on integer inputs" % op, case,
-                 observed=np.asarray(got).ravel().tolist()[:20], expected="Gaussian integers", origin=origin)
-        return False
+        return dict(what=what + "%s returned shape %s, requested %s" % (op, list(np.shape(got)), want_shape),
+                    case=case, observed=list(np.shape(got)), expected=want_shape)
+    if isinstance(canon(got), str):
+        return dict(what=what + "%s returned %s on integer inputs (times a power of two)" % (op, canon(got)), case=case,
+                    observed=repr(np.asarray(got).ravel().tolist()[:20]), expected="Gaussian integers")
     # <conv(d, f), y> = <d, adj_d(y)> = <f, adj_f(y)> for the given y and fresh random arguments of the other side
     rng = np.random.RandomState(zlib.crc32(A(x["y"]).encode()) % (2 ** 31))
     for t in range(3):
@@ -552,10 +799,50 @@ def check_one(ctx, c, x, op, via, origin):
         lhs = exact_vdot(x["y"], fw)      # Σ conj(y)·conv
         rhs = exact_vdot(got, u)          # Σ conj(adj y)·u
         if lhs != rhs:
-            ctx.fail(key_of(c, op, via), what + "%s is not the adjoint: <y, conv(u)> = %s but <adj(y), u> = %s" % (op, lhs, rhs),
-                     dict(case, u=A(u)), observed=rhs, expected=lhs, origin=origin)
-            return False
-    return True
+            return dict(what=what + "%s is not the adjoint: <y, conv(u)> = %s but <adj(y), u> = %s" % (op, lhs, rhs),
+                        case=dict(case, u=A(u)), observed=rhs, expected=lhs)
+    return None
+
+
+WIDENINGS = [("reuse", "history"), ("sp", "single-precision"), ("sc", "magnitude"), ("lay", "layout")]
+
+
+def check_one(ctx, c, x, op, via, origin):
+    """True = the property holds on this call. A failing case is first reduced: every widening (call history,
+    precision, power-of-two scaling, memory layout - then the layout of each single array) that is not needed for the
+    failure is removed, and the finding key names the ones that are."""
+    v = judge(c, x, op, via)
+    if v is None:
+        return True
+    for k, _ in WIDENINGS:
+        if c.get(k):
+            t = {kk: vv for kk, vv in c.items() if kk != k}
+            v2 = judge(t, x, op, via)
+            if v2 is not None:
+                c, v = t, v2
+    if c.get("lay"):
+        for i in range(3):
+            if c["lay"][i] != "C":
+                t = dict(c, lay=c["lay"][:i] + ["C"] + c["lay"][i + 1:])
+                v2 = judge(t, x, op, via)
+                if v2 is not None:
+                    c, v = t, v2
+    if c.get("sc"):
+        for i in range(3):
+            if c["sc"][i]:
+                t = dict(c, sc=c["sc"][:i] + [0] + c["sc"][i + 1:])
+                v2 = judge(t, x, op, via)
+                if v2 is not None:
+                    c, v = t, v2
+    suffix = "".join(":" + nm for k, nm in WIDENINGS if c.get(k))
+    what = v["what"]
+    if suffix:
+        what += " [needs%s; the same call with C-contiguous double-precision unscaled arrays and no call history is correct]" % suffix.replace(":", " ")
+    ctx.fail(key_of(c, op, via) + suffix, what, v["case"], observed=v["observed"], expected=v["expected"], origin=origin)
+    return False
+
+
+
 
 
 def rand_like(rng, a):
@@ -569,7 +856,7 @@ def check_case(ctx, c, x, origin, ops=None):
     ok = True
     for op in ops or ("conv", "dadj", "fadj"):
         for via in VIAS[op]:
-            ctx.case(("oracle", head(c), op, via, A(x["y"])[:40]))
+            ctx.case(("oracle", head(c), op, via, A(x["y"])[:40], extras(c)))
             ok = check_one(ctx, c, x, op, via, origin) and ok
     return ok
 
@@ -590,6 +877,9 @@ def search(ctx, budget):
         check_case(ctx, c, make_inputs(c, rng), "search-1d")
     for c in gen_cases(rng, int(120 * budget), int(20 * budget)):
         check_case(ctx, c, make_inputs(c, rng), "search")
+    # the same value-level property with the arrays in other memory layouts / magnitudes / precisions / histories
+    for c in widened_cases(rng, int(100 * budget), int(100 * budget), int(15 * budget)):
+        check_case(ctx, c, make_inputs(c, rng), "search-widened")
     if budget > 1:
         for c in rng.sample(ex1, min(len(ex1), int(150 * budget))):
             check_case(ctx, c, make_inputs(c, rng), "search-1d")
